@@ -42,7 +42,7 @@ def run(ctx, kind, rule):
         ctx.extra["calls_dropped_not_in_input_class"] = ctx.extra.get("calls_dropped_not_in_input_class", 0) + len(dropped)
         for fl in r.fails:
             ev = json.loads(lines[fl["line"] - 1])
-            case = ev["case"] if ev.get("e") == "Crash" else {k: ev[k] for k in ("paths", "jt", "et", "d4", "ml100", "at4", "rs", "pseed")}
+            case = ev["case"] if ev.get("e") == "Crash" else {k: ev[k] for k in ("paths", "jt", "et", "d4", "ml100", "at4", "rs", "pseed", "sc") if k in ev}
             prop = ctx.prop if fl["prop"] == "ANY" else fl["prop"]
             rec = {"prop": prop, "clause": fl["clause"], "detail": fl["detail"], "case": case, "event": {k: v for k, v in ev.items() if k not in ("pts", "cover")},
                    "harness": {"variant": byf[f]["variant"], "args": byf[f]["args"]}}
